@@ -214,6 +214,7 @@ type Frame struct {
 	recoverEntry                       *State
 	mats                               map[*Val]*Val
 	ctVars                             map[string]*Val
+	ctCells                            map[string]*Val // captured variables: source name -> address of the cell
 	nameVals                           map[string]ssa.Value
 	nameAddrs                          map[string]ssa.Value
 	lastKeyInfo                        keyInfo
@@ -855,6 +856,10 @@ func (fr *Frame) step(b *ssa.BasicBlock, in ssa.Instruction, st *State) {
 	case *ssa.MakeChan:
 		r := u.allocRef(st, "chan:"+x.Name())
 		fr.vals[x] = term(r, x.Type())
+		// a new channel is open and nothing has been sent on it
+		u.ghostSort["closed"] = "(Array Ref Bool)"
+		u.fact(not(fmt.Sprintf("(select %s %s)", u.ghostOf(st, "closed"), r)))
+		u.fact(fmt.Sprintf("(= (select %s %s) 0)", u.ghostOf(st, "sends"), r))
 	case *ssa.MakeClosure:
 		f := x.Fn.(*ssa.Function)
 		var binds []*Val
